@@ -26,6 +26,29 @@ PROPS_A = "TfelVerif.C17.Props"
 K_MIN = "FixedSizeRowMajorMatrixIndexingPolicy::getUnderlyingArrayMinimalSize:Stride!=M"
 K_ARR = "FixedSizeIndexingPoliciesCartesianProduct::getIndex(array):second-policy-arity-0"
 K_DIV = "operator/=:integer-scalar"
+K_COMPAT = "checkIndexingPoliciesCompatiblity:extent-mismatch"
+# request kinds of harness/C17/indices.cxx answered by the same model request (second overloads / const overloads /
+# derivative views of tmatrix.ixx, which address sub-blocks of the matrix)
+ALIAS = {"idxa": "idx", "crow": "row", "ccol": "col", "csub": "sub", "dsub": "sub", "dsco": "sco", "csco": "sco"}
+VIEW_KEYS = {"row": "row", "col": "col", "sub": "sub", "varr": "varr", "sco": "sco", "crow": "row-const", "ccol": "col-const",
+             "csub": "sub-const", "dsub": "map_derivative", "dsco": "map_derivative_strided", "csco": "sco-const"}
+
+
+def policy_dims(desc):
+    """logical extents of a policy descriptor (S | V n s | M n m s | X stride p1 p2)"""
+    t = desc.split()
+
+    def go(i):
+        if t[i] == "S":
+            return [], i + 1
+        if t[i] == "V":
+            return [int(t[i + 1])], i + 3
+        if t[i] == "M":
+            return [int(t[i + 1]), int(t[i + 2])], i + 4
+        a, j = go(i + 2)
+        b, j = go(j)
+        return a + b, j
+    return go(0)[0]
 BAD_HAZARDS = ("matvec", "vecmat", "matmat", "transpose", "elementwise-overlap")
 
 
@@ -44,14 +67,25 @@ def has_strided_matrix(desc):
 
 def index_maps(ck, harnesses, driver):
     reqs = []
+    compat = []
+    clamps = []
     for harness in harnesses:
         p = ck.run([harness], timeout=600)
         if p.returncode != 0:
             raise vlib.BuildError("index enumeration harness failed on the current tree", p.stdout[-500:] + p.stderr[-2000:])
         for line in p.stdout.splitlines():
             r, v = line.rsplit(" = ", 1)
-            reqs.append((r, v))
-    text = "".join((("idx " + r[5:]) if r.startswith("idxa ") else r) + "\n" for r, _ in reqs)
+            if r.startswith(("compat ", "rcompat ")):
+                compat.append((r, v))
+            elif r.startswith(("clamp ", "keep ")):
+                clamps.append((r, v))
+            else:
+                reqs.append((r, v))
+
+    def model_request(r):
+        kind, rest = r.split(" ", 1)
+        return ALIAS.get(kind, kind) + " " + rest
+    text = "".join(model_request(r) + "\n" for r, _ in reqs)
     pm = ck.run([driver], input=text, timeout=600)
     model = pm.stdout.splitlines()
     if len(model) != len(reqs):
@@ -140,8 +174,8 @@ def index_maps(ck, harnesses, driver):
     for (r, v, m) in mism:
         kind = r.split()[0]
         d = r.split(" ", 1)[1].split(" ;")[0].strip()
-        if kind in ("row", "col", "sub", "varr", "sco"):
-            report("view:%s:cell" % kind, "view request `%s`: the real view addresses cell %s, intended cell %s" % (r, v, m),
+        if kind in VIEW_KEYS:
+            report("view:%s:cell" % VIEW_KEYS[kind], "view request `%s`: the real view addresses cell %s, intended cell %s" % (r, v, m),
                    {"request": r, "implementation": v, "intended": m}, True)
         elif d in explained:
             continue   # a property predicate already fails on this policy (reported above with a failing input)
@@ -151,6 +185,31 @@ def index_maps(ck, harnesses, driver):
         else:
             report("corr:%s:%s" % (kind, d.split()[0]), "correspondence broken on `%s`: implementation %s, model %s (property predicates still hold)" % (r, v, m),
                    {"request": r, "implementation": v, "model": m}, False)
+    # compatibility of two indexing policies (compile time: static_asserts of View / CoalescedView, isAssignableTo between
+    # views; run time: sizes of runtime policies): compatible iff same arity and same extents
+    for (r, v) in compat:
+        kind, rest = r.split(" ", 1)
+        d1, d2 = [x.strip() for x in rest.split("|")]
+        stats[kind] += 1
+        want = 1 if policy_dims(d1) == policy_dims(d2) else 0
+        if int(v) != want:
+            fn = "checkIndexingPoliciesCompatiblity" if kind == "compat" else "areIndexingPoliciesCompatibleAtRunTime"
+            report(K_COMPAT if kind == "compat" else "areIndexingPoliciesCompatibleAtRunTime:extent-mismatch",
+                   "%s(`%s`, `%s`) = %s: extents %s and %s%s" % (fn, d1, d2, v, policy_dims(d1), policy_dims(d2),
+                                                              " (a view whose policy has other extents than the mapped object is accepted: "
+                                                              "indices of the object fall outside the cells of the policy)" if int(v) else " are rejected"),
+                   {"policy_1": d1, "policy_2": d2, "extents_1": policy_dims(d1), "extents_2": policy_dims(d2),
+                    "implementation": int(v), "expected": want, "predicate": "compatible iff equal arity and extents"}, True)
+    # clamp on concrete integers: min(max(x, lo), hi) component-wise, cells outside the view untouched
+    for (r, v) in clamps:
+        t = r.split()
+        stats[t[0]] += 1
+        x = int(t[-1])
+        want = sorted((int(t[1]), x, int(t[2])))[1] if t[0] == "clamp" else x
+        if int(v) != want:
+            report("clamp:value", "clamp(%s): component %d became %s, expected %d" % (", ".join(t[1:-1]), x, v, want),
+                   {"request": r, "implementation": int(v), "expected": want,
+                    "predicate": "clamp(lo, hi) maps x to min(max(x, lo), hi) and leaves other cells unchanged"}, True)
     for key, (what, rep, ok, n) in found.items():
         rep = dict(rep)
         rep["occurrences_same_key"] = n
@@ -162,7 +221,7 @@ def index_maps(ck, harnesses, driver):
             rep["real_code_replay"] = ("auto d = map_derivative<0,1,stensor<1u,double>,double>(tmatrix<3,3,double>& m): d(2) is m(2,1) but "
                                        "d(std::array{2}) is m(1,0) (patch: patches/C17-cartesian-getIndex-array.diff)")
         ck.violation(key, what, rep, ok)
-    return {"requests": len(reqs), "by_kind": dict(stats), "policies_checked": checked,
+    return {"requests": len(reqs) + len(compat) + len(clamps), "by_kind": dict(stats), "policies_checked": checked,
             "model_disagreements": len(mism), "distinct_policies": len(pol),
             "samples": ["%s = %s (model %s)" % (reqs[i][0], reqs[i][1], model[i]) for i in (5, len(reqs) // 3, len(reqs) // 2, len(reqs) - 1)]}
 
@@ -211,6 +270,8 @@ def hazard_key(P):
         bad = [h for h in hz if h in BAD_HAZARDS]
         if bad:
             return "aliasing:" + bad[0]
+    if getattr(P, "tag", None):
+        return "eager:" + P.tag
     if any(op == "/=" and re.search(r"/= -?\d+;$", cxx) for (cxx, _, op, _) in P.stmts):
         return K_DIV
     kinds = sorted({k.split(":")[1] for k in P.kinds if k.startswith("view:")})
@@ -218,8 +279,8 @@ def hazard_key(P):
 
 
 def run(ck):
-    nprog = 40 if ck.quick else 400
-    per_tu = 10 if ck.quick else 20
+    nprog = 48 if ck.quick else 400   # the first len(c17gen.FORCED) = 23 programs are directed, the others random
+    per_tu = 12 if ck.quick else 20
     progs = generate(ck, nprog)
     chunks = [progs[i:i + per_tu] for i in range(0, len(progs), per_tu)]
     cv = vlib.REPO + "/src/Exception/ContractViolation.cxx"
